@@ -86,8 +86,13 @@ func orderSensitiveCerts() [][]byte {
 // in-place normalisation by one lint (visible to the lints after it) needs in order to show
 func manySanCerts() [][]byte {
 	var ders [][]byte
-	for k := 1; k <= 16; k++ {
+	// a ladder of list sizes, well past any small threshold (a fast path for "large" lists is a code path of its own)
+	sizes := []int{1, 2, 3, 4, 5, 6, 7, 8, 9, 10, 11, 12, 13, 14, 15, 16, 17, 20, 31, 32, 33, 50, 64, 65, 100, 129, 257}
+	for _, k := range sizes {
 		for variant := 0; variant < 2; variant++ {
+			if k > 17 && variant == 1 {
+				continue
+			}
 			t := leafTemplate()
 			var names []string
 			for j := 0; j < k; j++ {
